@@ -15,8 +15,8 @@ fn hexb(s: &str) -> String {
 }
 
 /// the same canonical string the driver's `printer.rt` prints, from the real functions
-fn impl_rt(text: &str, s: usize, e: usize, prefix: &str) -> Result<String, String> {
-    let (t, p) = (text.to_string(), prefix.to_string());
+fn impl_rt(text: &str, s: usize, e: usize, prefix: &str, keep: &[usize]) -> Result<String, String> {
+    let (t, p, keep) = (text.to_string(), prefix.to_string(), keep.to_vec());
     vh_common::catch(move || {
         let text = t.as_str();
         let len = TextSize::new(text.len() as u32);
@@ -25,8 +25,8 @@ fn impl_rt(text: &str, s: usize, e: usize, prefix: &str) -> Result<String, Strin
         let ls = rt::line_start_offset(text, s);
         let le = rt::line_end_offset(text, e);
         let indent = rt::line_indent_prefix(text, x.start());
-        let strip = rt::strip_base_indent(text, &p);
-        let apply = rt::apply_base_indent(text, &p);
+        let strip = rt::strip_base_indent(text, &p, &keep);
+        let apply = rt::apply_base_indent(text, &p, &keep);
         format!(
             "ok clamp={}:{} expand={}:{} ls={} le={} indent={} strip={} apply={}",
             u32::from(c.start()), u32::from(c.end()), u32::from(x.start()), u32::from(x.end()), ls, le,
@@ -44,21 +44,23 @@ fn fragment(rng: &mut Rng, max: usize) -> String {
 }
 
 fn tie(args: &Args, report: &mut Report, rng: &mut Rng) {
-    let mut cases: Vec<(String, usize, usize, String)> = Vec::new();
+    let mut cases: Vec<(String, usize, usize, String, Vec<usize>)> = Vec::new();
     // hand-picked
     for (t, s, e, p) in [
         ("  a\n\n  b", 0, 3, "  "), ("  \n  b", 0, 2, "  "), ("a\n", 0, 1, "  "), (" a\r\n b", 1, 5, " "),
         ("", 0, 0, ""), ("\n", 0, 5, "\t"), ("x", 3, 9, " "), ("\ta\n\t\tb\n", 2, 4, "\t"), ("a\r", 0, 2, ""),
     ] {
-        cases.push((t.into(), s, e, p.into()));
+        cases.push((t.into(), s, e, p.into(), vec![]));
     }
+    cases.push(("x=[[a\n b]]".into(), 0, 3, "\t".into(), vec![6]));
+    cases.push(("x=[[a\n b]]".into(), 0, 3, " ".into(), vec![6]));
     if args.thorough() {
         for t in vh_common::gen_text::all_texts(&["a", " ", "\n", "\r"], 6) {
             let n = t.len();
             for s in 0..=n + 1 {
                 for e in s..=n + 1 {
                     for p in ["", " ", "  "] {
-                        cases.push((t.clone(), s, e, p.into()));
+                        cases.push((t.clone(), s, e, p.into(), vec![]));
                     }
                 }
             }
@@ -69,7 +71,7 @@ fn tie(args: &Args, report: &mut Report, rng: &mut Rng) {
             let n = t.len();
             for s in 0..=n + 1 {
                 for e in s..=n + 1 {
-                    cases.push((t.clone(), s, e, " ".into()));
+                    cases.push((t.clone(), s, e, " ".into(), if (s + e) % 3 == 0 { vec![s, e] } else { vec![] }));
                 }
             }
         }
@@ -87,19 +89,30 @@ fn tie(args: &Args, report: &mut Report, rng: &mut Rng) {
             let ls = rt::line_start_offset(&t, rng.below(n + 1));
             rt::line_indent_prefix(&t, TextSize::new(ls as u32))
         };
-        cases.push((t, s, e, p));
+        // kept line starts: a random subset of the real line starts (plus sometimes a non-line-start offset)
+        let mut keep = Vec::new();
+        if rng.chance(1, 2) {
+            for (i, b) in t.bytes().enumerate() {
+                if b == b'\n' && i + 1 < t.len() && rng.chance(1, 2) { keep.push(i + 1); }
+            }
+            if rng.chance(1, 3) { keep.push(0); }
+            if rng.chance(1, 5) { keep.push(rng.below(n + 2)); }
+        }
+        cases.push((t, s, e, p, keep));
     }
-    let reqs: Vec<String> = cases.iter().map(|(t, s, e, p)| format!("printer.rt {} {} {} {}", hexb(t), s, e, hexb(p))).collect();
+    let keeps = |k: &Vec<usize>| if k.is_empty() { "-".to_string() } else { k.iter().map(|x| x.to_string()).collect::<Vec<_>>().join(",") };
+    let reqs: Vec<String> = cases.iter().map(|(t, s, e, p, k)| format!("printer.rt {} {} {} {} {}", hexb(t), s, e, hexb(p), keeps(k))).collect();
     let model = run_driver(&reqs);
     let mut seen = HashSet::new();
-    for ((t, s, e, p), m) in cases.iter().zip(model.iter()) {
+    for ((t, s, e, p, k), m) in cases.iter().zip(model.iter()) {
         report.evaluations += 1;
-        let i = match impl_rt(t, *s, *e, p) {
+        if !k.is_empty() { report.count("tie_with_kept_lines"); }
+        let i = match impl_rt(t, *s, *e, p, k) {
             Ok(x) => x,
             Err(msg) => format!("err panic ({msg})"),
         };
         let multi = t.matches('\n').count() >= 1;
-        if multi && seen.insert((t.clone(), *s, *e, p.clone())) {
+        if multi && seen.insert((t.clone(), *s, *e, p.clone(), k.clone())) {
             report.distinct_nontrivial += 1;
         }
         if t.contains("\r\n") { report.count("tie_crlf"); }
@@ -107,13 +120,13 @@ fn tie(args: &Args, report: &mut Report, rng: &mut Rng) {
         if *e > t.len() { report.count("tie_range_beyond_end"); }
         if !p.is_empty() { report.count("tie_nonempty_prefix"); }
         if &i != m {
-            report.mismatch(json!({"input": {"kind": "rt", "text_hex": hexb(t), "text": t, "s": s, "e": e, "prefix": p},
+            report.mismatch(json!({"input": {"kind": "rt", "text_hex": hexb(t), "text": t, "s": s, "e": e, "prefix": p, "keep": k},
                 "model": m, "impl": i, "tie": "correspondence printer.rt (RangeText model vs range_format helpers)"}));
         } else {
             report.traces_validated += 1;
         }
         if report.samples.len() < 2 && multi {
-            report.sample(json!({"kind": "tie", "text": t, "s": s, "e": e, "prefix": p, "both": m}));
+            report.sample(json!({"kind": "tie", "text": t, "s": s, "e": e, "prefix": p, "keep": k, "both": m}));
         }
     }
 }
@@ -264,7 +277,8 @@ fn check_selection(text: &str, s: usize, e: usize, cfg: &LuaFormatConfig, orig: 
     let (cs, ce) = (s.min(text.len()), e.min(text.len()));
     for t in &orig.toks {
         let (a, b) = (t.start as usize, t.end as usize);
-        if a < ce && cs < b && !(rs <= a && b <= re) {
+        // (a `#!` line is not code the formatter ever rewrites)
+        if a < ce && cs < b && !(rs <= a && b <= re) && !(a == 0 && t.text.starts_with("#!")) {
             return Err(format!("selected token {:?} at {a}..{b} is outside the replaced region {rs}..{re}", t.text));
         }
     }
@@ -314,8 +328,10 @@ pub fn run(args: &Args, report: &mut Report) {
             let t = vh_common::unhex(inp["text_hex"].as_str().unwrap_or("-")).unwrap_or_default();
             let (s, e) = (inp["s"].as_u64().unwrap_or(0) as usize, inp["e"].as_u64().unwrap_or(0) as usize);
             let p = inp["prefix"].as_str().unwrap_or("").to_string();
-            let m = run_driver(&[format!("printer.rt {} {} {} {}", hexb(&t), s, e, hexb(&p))]);
-            let i = impl_rt(&t, s, e, &p).unwrap_or_else(|m| format!("err panic ({m})"));
+            let k: Vec<usize> = inp["keep"].as_array().map(|a| a.iter().filter_map(|x| x.as_u64().map(|y| y as usize)).collect()).unwrap_or_default();
+            let ks = if k.is_empty() { "-".to_string() } else { k.iter().map(|x| x.to_string()).collect::<Vec<_>>().join(",") };
+            let m = run_driver(&[format!("printer.rt {} {} {} {} {}", hexb(&t), s, e, hexb(&p), ks)]);
+            let i = impl_rt(&t, s, e, &p, &k).unwrap_or_else(|m| format!("err panic ({m})"));
             report.evaluations = 1;
             if i != m[0] {
                 report.mismatch(json!({"input": inp, "model": m[0], "impl": i, "tie": "correspondence printer.rt"}));
@@ -352,6 +368,9 @@ pub fn run(args: &Args, report: &mut Report) {
             let (cname, cfg) = &cfgs[ci];
             let Some(orig) = tokens::parse(text, level, cfg) else {
                 report.count("generated_doc_with_syntax_errors");
+                if let Ok(d) = std::env::var("VH_DUMP") {
+                    let _ = std::fs::write(format!("{d}/rejected-{di}.lua"), text);
+                }
                 report.notes.push(format!("generator produced a document the parser rejects: {:?}", &text[..text.len().min(120)]));
                 break;
             };
